@@ -3,7 +3,7 @@
 (* Effect of MechSessionBase: variables, statement alphabet, Next, properties.  *)
 EXTENDS MechSessionBase
 
-CONSTANTS LitPool, MaxScalar
+CONSTANTS LitPool, MaxScalar, ActKinds
 
 VARIABLES store, mut, act
 vars == <<store, mut, act>>
@@ -15,21 +15,27 @@ Init == /\ store = [n \in Names |-> Undef]
         /\ act = A("Init", NoName, NoName, Undef, 0, FALSE, TRUE)
 
 (* the statement alphabet of the bounded model *)
-Alphabet ==
+AllActs ==
        {A("Define", n, NoName, v, 0, mu, TRUE) : n \in Names, v \in LitPool, mu \in BOOLEAN}
   \cup {A("DefineFromVar", n, m, Undef, 0, mu, TRUE) : n \in Names, m \in Names, mu \in BOOLEAN}
   \cup {A("Assign", n, NoName, v, 0, FALSE, TRUE) : n \in Names, v \in {Sc(6), Mat(3, 4)}}
   \cup {A("AssignFromVar", n, m, Undef, 0, FALSE, TRUE) : n \in Names, m \in Names}
   \cup {A("IndexAssign", n, NoName, Undef, i, FALSE, TRUE) : n \in Names, i \in {1, 3}}
   \cup {A(nm, n, NoName, Undef, 0, FALSE, TRUE) : nm \in {"OpAssign", "FieldAssign", "TupleElemAssign", "Eval"}, n \in Names}
+  \cup {A("OpAssignVar", n, m, Undef, i, FALSE, TRUE) : n \in Names, m \in Names, i \in 1..3}
   \cup {A("Destructure", n, m, Undef, 0, FALSE, TRUE) : n \in Names, m \in Names}
   \cup {[A("DestructureVar", n, m, Undef, 0, FALSE, TRUE) EXCEPT !.k = k] : n \in Names, m \in Names, k \in Names}
+
+Alphabet == {a \in AllActs : a.a \in ActKinds}
 
 (* statements that make no sense syntactically or would leave the bounded value pool *)
 Sensible(a) ==
   /\ a.a \in {"DefineFromVar", "AssignFromVar", "Destructure", "DestructureVar"} => a.n # a.m
   /\ a.a = "DestructureVar" => a.k \notin {a.n, a.m}
   /\ (a.a = "OpAssign" /\ Effect(store, mut, a).ok) => \A q \in 1..Len(store[a.n].d) : store[a.n].d[q] < MaxScalar
+  /\ (a.a = "OpAssignVar" /\ Effect(store, mut, a).ok) =>
+        LET r == Effect(store, mut, a).store[a.n].d IN Len(r) <= 4 /\ \A q \in 1..Len(r) : r[q] \in 0..MaxScalar
+  /\ ~Unspecified(store, a)
 
 Do(a) ==
   LET e == Effect(store, mut, a) IN
